@@ -138,6 +138,12 @@ def check_C03(A: Analysis, tier):
                              A.p.loc(c["func"], c["node"]))
     rules.append(re_)
 
+    rf = Rule("C03", "C03.f", "the existence test that decides between rejecting and binding a pid is made inside the pid's "
+              "tagging claim (shared with C07.b): a test made before queueing on the claim is stale when the claim is obtained", floor=2)
+    from .rules_locks import stale_check_rule, GUARDS_OF
+    stale_check_rule(A, rf, ["tag_object", "store_object"], ("PIDREFS",), GUARDS_OF)
+    rules.append(rf)
+
     rd = Rule("C03", "C03.d", "a pid reference file is renamed away / removed only from delete_object and the "
               "tagging roll-back", floor=2)
     for it, ev in all_events(A, PUBLIC_API, ALL_MODES):
@@ -203,8 +209,11 @@ def check_C04(A: Analysis, tier):
                 if not any(F.implied(ev.facts, a) is False for a in atoms):
                     rb.fail(sf, site_text(ev), "the object is removed on a path where the cid reference file was not "
                             "tested absent: delete_if_invalid_object would delete a referenced object", site_loc(A, ev))
-            if not lock_ok:
-                rb.fail(sf, site_text(ev), "object removal and its reference guard are not under the cid claim", site_loc(A, ev))
+            guard_in = any(p[0] == "CIDREFS" and p[1] == c.key and any(l[0] == "object_locked_cids" and key_matches(l, c) and l in ev.held_must for l in p[2])
+                           for p in ev.probes)
+            if not lock_ok or not guard_in:
+                rb.fail(sf, site_text(ev), "the object removal and the reference-list test it depends on are not inside one critical section of the "
+                        "cid claim: a pid can be tagged between the test and the removal", site_loc(A, ev))
     rules += [ra, rb]
 
     rc = Rule("C04", "C04.c", "on the duplicate-content branch (object already present) no primitive writes, "
@@ -395,6 +404,15 @@ def check_C05(A: Analysis, tier):
                 rd.fail(Q("delete_object"), f"except {lab}", f"clean-up for {lab} differs between the two siblings: delete_object does "
                         f"{sorted(da)}, the roll-back does {sorted(ta)}", A.p.loc(A.p.func(Q("delete_object")), h))
     rules.append(rd)
+
+    # the line format of the cid list is what "appears exactly once in exactly that list" rests on
+    c15 = [r for r in check_C15(A, tier) if r.rid == "C15.c"][0]
+    rf = Rule("C05", "C05.f", "every writer of a cid list keeps one `pid + newline` per line (shared with C15.c): a list "
+              "rewritten without its final newline makes the next appended pid merge with the last line", floor=c15.floor)
+    rf.instances, rf.nontrivial, rf.obligations = list(c15.instances), set(c15.nontrivial), c15.obligations
+    for f in c15.findings:
+        rf.fail(f.func, f.construct, f.message, f.loc, f.detail)
+    rules.append(rf)
     return rules
 
 
